@@ -4,7 +4,7 @@ import RedisVerif.Model.SimHarness
 import RedisVerif.Lemmas.Sim
 import RedisVerif.Model.SimMore
 import RedisVerif.Lemmas.SimMore
-import RedisVerif.Model.SimCluster
+import RedisVerif.Model.SimMulti
 import RedisVerif.Model.SimBuggify
 
 /-!
@@ -42,7 +42,7 @@ claimed here is different (DESIGN §4 C20):
 namespace RedisVerif
 namespace C20
 
-open SimRng SimKernel SimHarness SimLemmas SimMore SimMoreLemmas SimCluster SimBuggify SimFaultTable
+open SimRng SimKernel SimHarness SimLemmas SimMore SimMoreLemmas SimMulti SimBuggify SimFaultTable
 
 /-! ## T3 — the RNG wrappers -/
 
@@ -740,7 +740,7 @@ theorem result_stats_independent_of_earlier_runs : C20_result_stats_independent_
 example : finalizeStats false [(0, 31)] [(0, 31)] = [(0, 62)] ∧ finalizeStats true [(0, 31)] [(0, 31)] = [(0, 31)] := by decide
 
 
-/-! ## T5 — `MultiNodeSimulation` / `run_partition_test` (Model/SimCluster)
+/-! ## T5 — `MultiNodeSimulation` / `run_partition_test` (Model/SimMulti)
 
 The cluster simulation iterates a `HashMap` at two places that reach its output: the keys
 `get_keys_in_buckets` selects for an anti-entropy exchange (the receiver's Lamport clock advances
